@@ -771,8 +771,10 @@ def _sig(tr, l, clause, world, hidden=(), shape=None):
                                                            ':ro' if d.get('ro') else '')
     if req['act'] == 'activate' and not req['name'] and req['mod'] in tr[0]['desc']:
         target = dt = 'module'
+    if req['act'] == 'describe' and not req['mod']:
+        target = dt = 'node'
     after = 'requests'
-    if any(e['req']['act'] in ('poll', 'assign') and e['req']['mod'] == req['mod'] for e in tr[1:l - 1]):
+    if any(e['req']['act'] in ('poll', 'assign') and req['mod'] in ('', e['req']['mod']) for e in tr[1:l]):
         after = 'poll/assign'          # the cache was touched from the driver side before
     if [req['mod'], req['name']] in list(hidden):
         target = 'cfg-hidden'
